@@ -537,6 +537,21 @@ func (sc *SpecCtx) call(e *SExpr) (*Val, error) {
 			return &Val{T: eq(sx("sl-base", x.T), "0"), Ty: boolType}, nil
 		}
 		return &Val{T: eq(x.T, "0"), Ty: boolType}, nil
+	case "global":
+		// global("pkg.Name"): the current value of a package-level variable
+		if len(e.Args) != 1 {
+			return nil, fmt.Errorf("global(\"pkg.Name\")")
+		}
+		gl := g.eng.findGlobal(selName(e.Args[0]))
+		if gl == nil {
+			return nil, fmt.Errorf("unknown package variable %q", selName(e.Args[0]))
+		}
+		gv := g.globalVal(gl)
+		elem := gl.Type().(*types.Pointer).Elem()
+		if isStruct(elem) {
+			return &Val{T: gv.T, Ty: gl.Type()}, nil
+		}
+		return &Val{T: g.load(sc.cur, gv, elem), Ty: elem}, nil
 	case "deref":
 		x, err := argv(0)
 		if err != nil {
